@@ -1207,9 +1207,24 @@ def _c17_models(smt, K, cache_n, fields, st):
 
 
 def _c17_cache_size():
+    """the value of PEERS_PER_DOC_CACHE_SIZE: read off the source when it is spelled `NonZeroUsize::new(N)`; however else it is
+    spelled, the native replay binary (built from /repo's working tree just before the queries run) is asked for the value the
+    constant has in the real build"""
     import re as _re
+    import subprocess as _sp
     m = _re.search(r"PEERS_PER_DOC_CACHE_SIZE: NonZeroUsize = match NonZeroUsize::new\((\d+)\)", open(REPO + "/src/store.rs").read())
-    return int(m.group(1)) if m else None
+    if m:
+        return int(m.group(1))
+    for prof in ("debug", "release"):
+        binp = _os.path.join(_os.path.dirname(_os.path.dirname(_os.path.abspath(__file__))), ".work", "replay-target", prof, "verif-replay")
+        if _os.path.exists(binp):
+            try:
+                p = _sp.run([binp, "--const", "PEERS_PER_DOC_CACHE_SIZE"], stdout=_sp.PIPE, stderr=_sp.PIPE, text=True, timeout=60)
+                if p.returncode == 0 and p.stdout.strip().isdigit():
+                    return int(p.stdout.strip())
+            except Exception:  # noqa
+                pass
+    return None
 
 
 def _c17_smt(K):
@@ -1372,26 +1387,30 @@ def q_c17_read_order(bodies):
             paths = ex.run(body, ["STORE", "NSID"])
         except (ValueError, AssertionError, KeyError, IndexError) as e:
             return dict(name=name, property="C17", verdict="inconclusive", detail="K=%d: %r" % (K, e), functions=[body.name])
-        if len(paths) != 1:
-            problems.append(("get_sync_peers has one outcome per stored row (storage errors aside)", "inconclusive", "K=%d paths=%d" % (K, len(paths))))
-            continue
-        pc, ret, calls, env = paths[0]
-        ncases += 1
-        pushed = list(env.get("__pushed", ()))
-        want = ["p_%d" % i for i in reversed(range(K))]
-        nq += 1
-        # the order is decided syntactically per path and confirmed by the solver (p_i are distinct constants)
-        if len(pushed) != len(want):
-            problems.append(("every remembered peer is returned", "sat", "K=%d returned=%d" % (K, len(pushed))))
-            continue
-        dis = "(distinct %s)" % " ".join(want) if K > 1 else "true"
-        goal = "(and %s (not (and true %s)))" % (dis, " ".join("(= %s %s)" % (a, b) for a, b in zip(pushed, want)))
-        v, _ = solve(smt.script(goal))
-        if v != "unsat":
-            problems.append(("peers are returned most recent first", v, "K=%d" % K))
-        some = ret.startswith("(C_Ok (C_Some ")
-        if (K == 0) == some:
-            problems.append(("an empty peer row reads as None, a non-empty one as Some", "sat", "K=%d" % K))
+        # normally ONE path per K (storage errors aside); whatever else the function branches on (an opaque condition), every
+        # feasible path has to read the whole row
+        for pc, ret, calls, env in paths:
+            if len(paths) > 1:
+                nq += 1
+                if solve(smt.script("(and true %s)" % " ".join(pc)))[0] == "unsat":
+                    continue
+            ncases += 1
+            pushed = list(env.get("__pushed", ()))
+            want = ["p_%d" % i for i in reversed(range(K))]
+            nq += 1
+            tagp = "K=%d%s" % (K, (" path=%s" % [c[:70] for c in pc][:3]) if len(paths) > 1 else "")
+            # the order is decided syntactically per path and confirmed by the solver (p_i are distinct constants)
+            if len(pushed) != len(want):
+                problems.append(("every remembered peer is returned, whatever else is true of the document (open or not)", "sat", tagp + " returned=%d" % len(pushed)))
+                continue
+            dis = "(distinct %s)" % " ".join(want) if K > 1 else "true"
+            goal = "(and %s (not (and true %s)))" % (dis, " ".join("(= %s %s)" % (a, b) for a, b in zip(pushed, want)))
+            v, _ = solve(smt.script(goal))
+            if v != "unsat":
+                problems.append(("peers are returned most recent first", v, tagp))
+            some = ret.startswith("(C_Ok (C_Some ")
+            if (K == 0) == some:
+                problems.append(("an empty peer row reads as None, a non-empty one as Some", "sat", tagp))
     verdict = "holds"
     if any(p[1] == "inconclusive" for p in problems):
         verdict = "inconclusive"
@@ -3030,3 +3049,6 @@ for _p in ("C05", "C08"):
 # discard an acknowledged upgrade (c06_txn_glue) and a document that is still open in the actor cannot be removed and re-imported
 # under it (c14_gating parts C and D)
 QUERIES["C07"] = QUERIES.get("C07", []) + [q_c06_txn_glue] + [q for q in _QC14 if q.__name__ == "q_c14_gating"]
+# C09 names the author-heads report among the encodings that round-trip: AuthorHeads::encode / decode are decided by C13's queries
+from queries_c13api import QUERIES_C13API as _QC13API  # noqa: E402
+QUERIES["C09"] = QUERIES.get("C09", []) + [q_c13_heads_encode] + _QC13API
